@@ -8,6 +8,7 @@ import (
 	"fmt"
 	"go/token"
 	"go/types"
+	"math"
 	"math/big"
 	"sort"
 	"strconv"
@@ -379,6 +380,22 @@ func init() {
 			u = u<<8 | uint64(h[i])
 		}
 		return u
+	}
+	H["math.Float64bits"] = func(fr *frame, a []value) value {
+		if s, ok := a[0].(sym); ok {
+			const pre = "((_ to_fp 11 53) "
+			if strings.HasPrefix(s.term, pre) && strings.HasSuffix(s.term, ")") && !strings.Contains(s.term[len(pre):], " ") {
+				return sym{types.Uint64, s.term[len(pre) : len(s.term)-1]}
+			}
+			return sym{types.Uint64, "(fp.to_ieee_bv " + s.term + ")"}
+		}
+		return math.Float64bits(a[0].(float64))
+	}
+	H["math.Float64frombits"] = func(fr *frame, a []value) value {
+		if s, ok := a[0].(sym); ok {
+			return sym{types.Float64, "((_ to_fp 11 53) " + s.term + ")"}
+		}
+		return math.Float64frombits(a[0].(uint64))
 	}
 	H["regexp.MustCompile"] = func(fr *frame, a []value) value { return (*value)(nil) }
 	H["context.WithValue"] = func(fr *frame, a []value) value {
